@@ -56,6 +56,21 @@ Theorem C10_rw_try_nonblocking : forall s t c,
     end.
 Proof. exact rw_try_nonblocking. Qed.
 
+(* Wake initiation (only a fragment of "wake owed"): a release that frees the lock completely while a
+   node is linked whose owner is past its fetch_or runs wake_waiters; a cancelled future whose node was
+   WOKEN passes the wake on.  That the wake reaches a waiter able to use it is NOT proved here. *)
+Theorem C10_rw_release_wakes : forall progs s t k c u b,
+  reachable (rwsys progs) s -> rpcs s t = RURel k ->
+  (k = WR \/ rd s = 1%N) ->
+  In (u, b) (rqueue s) -> (forall q, rpcs s u <> RQFor q) ->
+  exists s' e, rwstep s t c = Some (s', e) /\ rpcs s' t = RLLSwap RLWake.
+Proof. exact rw_release_wakes. Qed.
+
+Theorem C10_rw_cancel_forwards_wake : forall s t c,
+  rpcs s t = RDLoad -> rnwk s t = true ->
+  exists s' e, rwstep s t c = Some (s', e) /\ rpcs s' t = RLLSwap RLWake /\ rfut s' t = None.
+Proof. exact rw_cancel_forwards_wake. Qed.
+
 (* ---- non-vacuity *)
 Definition rrep (n : nat) (x : nat * rch) := repeat x n.
 
